@@ -455,6 +455,10 @@ var c13Hand = []struct {
 		[]string{`{"s":[1],"a":{"x":[1]},"b":{"y":{"z":[1]}},"t":{"x":[1],"y":{"z":[1]},"w":{"z":[1]}}}`}},
 	{"explicit-value-beside-a-merge-holds-alias-and-anchors", "base: &base {x: 1}\ns: &s [7, 8]\nc:\n  <<: *base\n  k: &kk {p: *s, q: &qq 5}\nd: *kk\ne: *qq\n",
 		[]string{`{"base":{"x":1},"s":[7,8],"c":{"x":1,"k":{"p":[7,8],"q":5}},"d":{"p":[7,8],"q":5},"e":5}`}},
+	{"merged-anchor-holds-overlapping-merge-list", "x: &x {p: 1, s: 1}\ny: &y {p: 2, r: 2}\nz: &z {<<: [*x, *y], q: 3}\nm: {<<: *z, k: 0}\nn: [*z]\n",
+		[]string{`{"x":{"p":1,"s":1},"y":{"p":2,"r":2},"z":{"p":1,"s":1,"r":2,"q":3},"m":{"p":1,"s":1,"r":2,"q":3,"k":0},"n":[{"p":1,"s":1,"r":2,"q":3}]}`}},
+	{"alias-to-a-collection-of-aliases", "a: &a {k: 1}\nn: &n 2\ns: &s [*a, *n]\nt: *s\nu: {ref: *s, w: [*s]}\n",
+		[]string{`{"a":{"k":1},"n":2,"s":[{"k":1},2],"t":[{"k":1},2],"u":{"ref":[{"k":1},2],"w":[[{"k":1},2]]}}`}},
 	{"alias-of-alias-chain", "a: &a {k: 1}\nb: &b {<<: *a, j: 2}\nc: &c {<<: *b, i: 3}\nd: {<<: *c}\ne: [*a, *b, *c]\n",
 		[]string{`{"a":{"k":1},"b":{"k":1,"j":2},"c":{"k":1,"j":2,"i":3},"d":{"k":1,"j":2,"i":3},"e":[{"k":1},{"k":1,"j":2},{"k":1,"j":2,"i":3}]}`}},
 }
@@ -497,6 +501,33 @@ func c13CheckHand(name, route string) (kind, detail string) {
 		}
 		if len(docs) != len(h.want) {
 			return "document-count", fmt.Sprintf("%d documents decoded, %d written", len(docs), len(h.want))
+		}
+		if route == "json-part" {
+			// each entry of the root converted to JSON on its own (what `yq -o=json .k` does): the printer explodes only that entry
+			for i := range docs {
+				fresh, _, _ := impl.DecodeYAML(h.yaml)
+				r := fresh[i]
+				if r.Kind != yqlib.MappingNode {
+					continue
+				}
+				var want map[string]json.RawMessage
+				if err := json.Unmarshal([]byte(h.want[i]), &want); err != nil {
+					continue
+				}
+				for k := 0; k+1 < len(r.Content); k += 2 {
+					fresh2, _, _ := impl.DecodeYAML(h.yaml)
+					node := fresh2[i].Content[k+1]
+					key := r.Content[k].Value
+					js, jerr := c13JSON(node)
+					if jerr != nil {
+						return "json-error", fmt.Sprintf("document %d entry %q: %v", i, key, jerr)
+					}
+					if !c13SameJSON(js, string(want[key])) {
+						return "value", fmt.Sprintf("document %d: entry %q converted on its own reads %s, means %s", i, key, js, want[key])
+					}
+				}
+			}
+			return "", ""
 		}
 		if route == "explode-part" {
 			// explode applied to one entry of the root at a time: the entry reads as before and has nothing left in it,
@@ -636,7 +667,7 @@ func c13Run(c *fw.Ctx) error {
 		if !c.Mine(int64(hi)) {
 			continue
 		}
-		for _, route := range []string{"json", "explode", "explode-part", "json-one-printer"} {
+		for _, route := range []string{"json", "explode", "explode-part", "json-part", "json-one-printer"} {
 			kind, detail := c13CheckHand(h.name, route)
 			c.Eval(1)
 			c.Validated(1)
@@ -650,7 +681,7 @@ func c13Run(c *fw.Ctx) error {
 		}
 	}
 	docs := c13Docs(c.Thorough())
-	c.Res.Bound = fmt.Sprintf("%d documents: every placement of <= %d explicit keys of {x y z w} before/after `<<` x {no merge, single alias a|b|c, every ordered list of 1..3 of a b c (c itself merges b)} x 5 routes (traversal, explode(.), whole document to JSON, the merging map alone to JSON, explode of the merging map alone) x 9 read paths; 7 hand-written streams (anchor names redefined within and across documents, merged values that hold anchors and aliases used again, alias chains) x 4 routes (each document alone as JSON, explode, explode of one root entry at a time with the other entries' node graphs compared, the whole stream through one JSON printer)", len(docs), map[bool]int{false: 3, true: 4}[c.Thorough()])
+	c.Res.Bound = fmt.Sprintf("%d documents: every placement of <= %d explicit keys of {x y z w} before/after `<<` x {no merge, single alias a|b|c, every ordered list of 1..3 of a b c (c itself merges b)} x 5 routes (traversal, explode(.), whole document to JSON, the merging map alone to JSON, explode of the merging map alone) x 9 read paths; 9 hand-written streams (anchor names redefined within and across documents, merged values that hold anchors and aliases used again, alias chains) x 5 routes (each document alone as JSON, each root entry alone as JSON, explode, explode of one root entry at a time with the other entries' node graphs compared, the whole stream through one JSON printer)", len(docs), map[bool]int{false: 3, true: 4}[c.Thorough()])
 	for i, d := range docs {
 		if !c.Mine(int64(i)) || c.Expired() {
 			continue
